@@ -507,6 +507,10 @@ func c09Seq(c *fw.Ctx, i int) {
 			pk = '0'
 		case 1, 2:
 			p = r.Bytes(r.Pick(1, 2, 3, 4, r.Range(1, 64)))
+			if r.Chance(1, 60) {
+				p = c09Huge(r, kind.codec)
+				pk = 'H'
+			}
 		default:
 			if len(pool) == 0 {
 				pool = c09Train(r, kind.codec)
@@ -597,4 +601,71 @@ func c09Race(c *fw.Ctx, i int) {
 	}
 	c.Count("race_tripwire_trains", 1)
 	c.Shapef("race|%s|n%d", kind.name, minI(len(train), 8))
+}
+
+// c09Huge builds a payload longer than 64 KiB (16-bit offsets must not be involved anywhere).
+func c09Huge(r *fw.Rand, codec string) []byte {
+	n := r.Pick(65536, 65537, 66000, 70000, 131073)
+	switch codec {
+	case "h264":
+		switch r.Intn(3) {
+		case 0: // STAP-A whose units cross byte 65536
+			p := []byte{24}
+			for len(p) < n {
+				u := gen.H264Unit(r, r.Range(1, 23), r.Pick(900, 4000, 20000, 60000, 65535))
+				p = append(p, byte(len(u)>>8), byte(len(u)))
+				p = append(p, u...)
+			}
+			return p
+		case 1: // one FU-A fragment
+			p := append([]byte{28, byte(r.Pick(0x85, 0x05, 0x45))}, r.Bytes(n)...)
+			return p
+		}
+		return gen.H264Unit(r, r.Range(1, 23), n)
+	case "h265":
+		switch r.Intn(3) {
+		case 0: // aggregation packet
+			p := []byte{48 << 1, 1}
+			for len(p) < n {
+				u := c14Unit(r, r.Pick(900, 20000, 65535))
+				p = append(p, byte(len(u)>>8), byte(len(u)))
+				p = append(p, u...)
+			}
+			return p
+		case 1:
+			return append([]byte{49 << 1, 1, byte(r.Pick(0x81, 0x01, 0x41))}, r.Bytes(n)...)
+		}
+		return c14Unit(r, n)
+	case "av1":
+		p := []byte{byte(r.Pick(0x10, 0x00, 0x50, 0x90))}
+		if p[0]&0x30 == 0 {
+			for len(p) < n {
+				k := r.Pick(100, 127, 128, 16383, 16384, 40000)
+				p = append(p, obuLeb(k)...)
+				e := r.Bytes(k)
+				e[0] = 6 << 3
+				p = append(p, e...)
+			}
+			return p
+		}
+		e := r.Bytes(n)
+		e[0] = 6 << 3
+		return append(p, e...)
+	}
+	p := r.Bytes(n)
+	p[0] = byte(r.Pick(0x10, 0x90, 0x8A, 0xFF, int(p[0])))
+	return p
+}
+
+func obuLeb(v int) []byte {
+	var out []byte
+	for {
+		b := byte(v & 0x7F)
+		v >>= 7
+		if v != 0 {
+			out = append(out, b|0x80)
+		} else {
+			return append(out, b)
+		}
+	}
 }
